@@ -123,7 +123,7 @@ def run_job(job):
     if known is not None:
         rc, out_u, _ = sh(['goto-instrument', '--list-undefined-functions', base + '.a.gb'], 120)
         und = [l.strip() for l in out_u.splitlines() if re.match(r'^[A-Za-z_]\w*$', l.strip())]
-        bad = [u for u in und if not u.startswith('__CPROVER') and u not in known and u not in LIBC]
+        bad = [u for u in und if not u.startswith('__CPROVER') and not u.startswith('nondet_') and u not in known and u not in LIBC]
         if bad:
             return {'status': 'undecided', 'reason': 'call of undeclared function(s) %s: the extraction produced a name no header declares' % ', '.join(sorted(bad)),
                     'log': out_u, 'results': [], 'wall': time.time() - t0, 'cmd': ''}
